@@ -87,6 +87,8 @@ type enc struct {
 	opts     *EncOpts
 	ghostInit bool
 	ok bool
+	entryAt int
+	lastModel map[string]string
 	usedSpecs map[string]bool
 }
 
@@ -625,6 +627,9 @@ func (e *enc) havocHeap(keep func(string) bool) {
 			continue
 		}
 		if keep != nil && keep(a) {
+			continue
+		}
+		if e.w.immutableArr(a) {
 			continue
 		}
 		if a == "G_now" {
